@@ -1,4 +1,4 @@
-import Tickit.Model.LifeOps
+import Tickit.Model.LifeTop
 import Tickit.Gen.Life
 import Tickit.Driver.Common
 /-
@@ -25,11 +25,12 @@ def cfg : Cfg :=
    Gen.Life.dragForgottenOnClose, Gen.Life.snapshotRouting, Gen.Life.penCopyKeepsSrc⟩
 
 structure DSt where
-  st : St := {}
+  top : Top := {}
   crashed : Option String := none      -- the model's prediction: the process is dead
   implDead : Bool := false             -- the implementation has printed CRASH in this history
   mock : Bool := false
-deriving Inhabited
+
+instance : Inhabited DSt := ⟨{}⟩
 
 def nat? (s : String) : Option Nat := s.toNat?
 
@@ -121,6 +122,11 @@ def parseOp (ts : List String) : Option Op :=
   | ["end"] => some .«end»
   | _ => none
 
+def parseXOp (ts : List String) : Option XOp :=
+  match ts with
+  | ["mprint", l, c, h] => do some (.mprint (← int? l) (← int? c) (← hexBytes? h))
+  | _ => (parseOp ts).map .base
+
 /-- The liveness columns of an implementation observation: (windows alive?, pens, strings, buffers, term). -/
 structure ImplDump where
   wins : List Bool
@@ -185,36 +191,37 @@ def crashText : UB → String
   | .abort => "CRASH signal=6"
 
 def step (d : DSt) (ts : List String) (impl : String) : DSt × String × String :=
-  match parseOp ts with
+  match parseXOp ts with
   | none => (d, "bad-op", "")
-  | some op =>
-    let d : DSt := match op with
-      | .newTerm _ _ m => ({ st := {}, crashed := none, implDead := false, mock := m } : DSt)
-      | _ => d
+  | some xop =>
+    let op := xop.specOp
+    let d : DSt := if xop.isNew then ({ top := {}, crashed := none, implDead := false, mock := false } : DSt) else d
     let implDeadNow := impl.startsWith "CRASH"
     match d.crashed with
     | some c =>
-      let sv := specCheck d d.st op impl
+      let sv := specCheck d d.top.st op impl
       ({ d with implDead := d.implDead || implDeadNow }, c, sv)
     | none =>
-      let st0 := d.st
-      match Life.step cfg st0 op with
-      | .ok (st, res) =>
+      let top0 := d.top
+      match Life.xstep cfg top0 xop with
+      | .ok (top, res) =>
+        let st := top.st
         let logs := String.join (st.log.map (· ++ " "))
         let st := { st with log := [] }
+        let top := { top with st := st }
         let tail := match op with
           | .«end» => s!" leak={if anythingLeft st then 1 else 0}"
           | _ => ""
         let m := logs ++ res ++ dump st ++ tail
         let sv := specCheck d st op impl
-        ({ d with st := st, implDead := d.implDead || implDeadNow }, m, sv)
+        ({ d with top := top, implDead := d.implDead || implDeadNow }, m, sv)
       | .ub k what =>
         let c := crashText k
-        let sv := specCheck d st0 op impl
+        let sv := specCheck d top0.st op impl
         let _ := what
-        ({ d with st := st0, crashed := some c, implDead := d.implDead || implDeadNow }, c, sv)
+        ({ d with top := top0, crashed := some c, implDead := d.implDead || implDeadNow }, c, sv)
       | .fuel =>
-        ({ d with crashed := some "MODEL-OUT-OF-FUEL", implDead := d.implDead || implDeadNow }, "MODEL-OUT-OF-FUEL", specCheck d st0 op impl)
+        ({ d with crashed := some "MODEL-OUT-OF-FUEL", implDead := d.implDead || implDeadNow }, "MODEL-OUT-OF-FUEL", specCheck d top0.st op impl)
 
 def engine : Engine := { σ := DSt, init := {}, step := step }
 
